@@ -30,9 +30,17 @@ _pathname = _given if _given[0] == "/" else os.getcwd() + "/" + _given
 _main_dir = os.path.dirname(os.path.realpath(_pathname))
 _first = [None]
 _write = _log.write
+_getpid = os.getpid
+_pid = [os.getpid(), _log]
 
 
 def _trace(frame, event, arg):
+    global _write
+    if _getpid() != _pid[0]:
+        # a forked child: its events go to a log of its own, <C19_LOG>.<pid>
+        _pid[0] = _getpid()
+        _pid[1] = open("%s.%d" % (os.environ["C19_LOG"], _pid[0]), "w", buffering=1)
+        _write = _pid[1].write
     if _first[0] is None:
         _first[0] = frame
     if frame is _first[0]:
